@@ -6,6 +6,7 @@
      PEND W k=v,k=~,...             pending := write batch                        -> same
      PEND F                         pending := memtable flush                     -> same (+ " | FLAG 0" when it ends in duplicate-sst)
      PEND C gc|merge id,id | e,e ; e,e   pending := compaction (garbage collection / merge), inputs by model id, outputs by entries
+     ACC                            does the pending operation satisfy `acceptedb` (a step the theorems cover)? -> "ACC 0|1"
      Q k a|b                        crash before call k of the pending operation under model a/b, then reopen
                                     -> "OPEN ok=1 err=0 ents=e,e,..."
      QQ k a|b k2 a|b                the same, then crash before call k2 of THAT recovery, then reopen
@@ -14,6 +15,10 @@
      GO                             run the pending operation to completion       -> "DONE ok=0|1 seq cur files"
      EXIT                           the process exits (everything written stays)  -> "OK"
      SAVE / RESTORE                 push / pop the whole model state
+     SNAP name / GOTO name          named snapshots of the whole model state
+     FCALLS k                       the calls the pending operation issues when call k fails with an injected error
+     GOF k                          run the pending operation with an error injected into call k; "FDONE err env": env=1 when the
+                                    model goes on (every file recovery reads unchanged), env=0 when it stops there
      LOAD k a|b                     the process dies before call k of the pending operation: continue from that crash image
      ENT id                         entries of the sst with model id              -> "e,e,e"
      IMG                            the directory: names with data/durable counts
@@ -93,7 +98,7 @@ let show_call = function
   | CLink (a, b) -> "link " ^ show_name a ^ " " ^ show_name b
   | CUnlink f -> "unlink " ^ show_name f
   | CRename (a, b) -> "rename " ^ show_name a ^ " " ^ show_name b
-let show_mode = function Must -> "M" | Ignore -> "I" | Retire -> "R" | Exist -> "E" | Defer _ -> "D"
+let show_mode = function Must -> "M" | Ignore -> "I" | Retire -> "R" | Exist -> "E" | Defer _ -> "D" | Late _ -> "L"
 let show_prog (p : prog) : string =
   String.concat " ; " (List.map (fun (c, m) -> show_mode m ^ ":" ^ show_call c) p)
 
@@ -102,13 +107,22 @@ type pending = POpen | POp of op | PNone
 let () =
   let s : fs ref = ref [] in
   let v : vstate option ref = ref None in
+  (* after an error: has the current log failed, has the memtable thread died (Model.xstate) *)
+  let log_ok = ref true in
+  let flush_ok = ref true in
   let pend = ref PNone in
-  let saved : (fs * vstate option * pending) list ref = ref [] in
+  let saved : (fs * vstate option * pending * bool * bool) list ref = ref [] in
+  let snaps : (string, fs * vstate option * pending * bool * bool) Hashtbl.t = Hashtbl.create 16 in
+  let xs vv = { x_v = vv; x_log_ok = !log_ok; x_flush_ok = !flush_ok } in
+  let set_x x = v := Some x.x_v; log_ok := x.x_log_ok; flush_ok := x.x_flush_ok in
   let prog_of () : prog * bool =
     match !pend with
     | POpen -> let ((p, _), ok) = open_prog !s in (p, ok)
-    | POp o -> (match !v with Some vv -> op_prog vv !s o | None -> failwith "operation while down")
+    | POp o -> (match !v with
+                | Some vv -> (match xop_prog (xs vv) !s o with Some pf -> pf | None -> failwith "outside")
+                | None -> failwith "operation while down")
     | PNone -> failwith "nothing pending" in
+  let refused (p, flag) = (p = [] && not flag) in
   let reopen (img : fs) : string * fs * prog =
     let ((p, v'), ok) = open_prog img in
     let (s', e) = run_prog p None O img None in
@@ -122,7 +136,7 @@ let () =
       let out =
         try
           match t with
-          | ["RESET"] -> s := []; v := None; pend := PNone; Hashtbl.reset sst_ids; Hashtbl.reset sst_of_id; Hashtbl.reset dir_ids; "OK"
+          | ["RESET"] -> s := []; v := None; pend := PNone; log_ok := true; flush_ok := true; Hashtbl.reset snaps; Hashtbl.reset sst_ids; Hashtbl.reset sst_of_id; Hashtbl.reset dir_ids; "OK"
           | "PEND" :: "O" :: _ -> pend := POpen; let (p, ok) = prog_of () in "CALLS " ^ show_prog p ^ (if ok then "" else " | FLAG 0")
           | ["PEND"; "W"; b] ->
               let kvs = List.map (fun kv -> match String.split_on_char '=' kv with
@@ -138,6 +152,12 @@ let () =
               let ins = List.map (fun i -> Hashtbl.find sst_of_id (int_of_string (String.trim i))) (split ',' (String.trim a)) in
               let outs = List.map (fun f -> List.map parse_entry (split ',' (String.trim f))) (split ';' b) in
               pend := POp (OpCompact (gc, ins, outs)); let (p, ok) = prog_of () in "CALLS " ^ show_prog p
+          | ["ACC"] ->
+              (* is the pending operation a step of the theorems' transition system (ProofsLts.accepted)? *)
+              (match !pend, !v with
+               | POp o, Some vv -> if acceptedb vv o then "ACC 1" else "ACC 0"
+               | POpen, _ -> "ACC 1"
+               | _ -> "ERROR nothing pending")
           | ["Q"; k; m] ->
               let (p, _) = prog_of () in
               let st = prefix_state p (nat_of_int (int_of_string k)) !s in
@@ -161,7 +181,7 @@ let () =
                    let ((p, v'), okflag) = open_prog !s in
                    let (st, e) = run_prog p None O !s None in
                    let ok = okflag && e = None in
-                   s := st; (if ok then v := Some v' else v := None); pend := PNone;
+                   s := st; (if ok then v := Some v' else v := None); pend := PNone; log_ok := true; flush_ok := true;
                    Printf.sprintf "DONE ok=%d seq=%s cur=%s files=%s mem=%s" (if ok then 1 else 0) (dec_of_n v'.v_seq) (dec_of_n v'.v_cur)
                      (String.concat "," (List.map (fun x -> string_of_int (sst_id x)) v'.v_files)) (show_entries v'.v_mem)
                | POp o ->
@@ -169,7 +189,10 @@ let () =
                    let (st, e) = run_prog p None O !s None in
                    let ok = flag && e = None in
                    s := st;
-                   (match !v with Some vv -> if ok then v := Some (op_next vv o) | None -> ());
+                   (match !v with
+                    | Some vv -> if ok then set_x (xnext_ok (xs vv) o)
+                                 else if refused (p, flag) then set_x (xnext_err (xs vv) o)
+                    | None -> ());
                    pend := PNone;
                    (match !v with
                     | Some vv -> Printf.sprintf "DONE ok=%d seq=%s cur=%s files=%s mem=%s" (if ok then 1 else 0) (dec_of_n vv.v_seq) (dec_of_n vv.v_cur)
@@ -177,11 +200,47 @@ let () =
                     | None -> Printf.sprintf "DONE ok=%d" (if ok then 1 else 0))
                | PNone -> "ERROR nothing pending")
           | ["EXIT"] -> s := image_a !s; v := None; pend := PNone; "OK"
-          | ["SAVE"] -> saved := (!s, !v, !pend) :: !saved; "OK"
+          | ["SAVE"] -> saved := (!s, !v, !pend, !log_ok, !flush_ok) :: !saved; "OK"
           | ["RESTORE"] ->
               (match !saved with
-               | (s0, v0, p0) :: r -> s := s0; v := v0; pend := p0; saved := r; "OK"
+               | (s0, v0, p0, l0, f0) :: r -> s := s0; v := v0; pend := p0; log_ok := l0; flush_ok := f0; saved := r; "OK"
                | [] -> "ERROR nothing saved")
+          | ["SNAP"; nm] -> Hashtbl.replace snaps nm (!s, !v, !pend, !log_ok, !flush_ok); "OK"
+          | ["GOTO"; nm] ->
+              (match Hashtbl.find_opt snaps nm with
+               | Some (s0, v0, p0, l0, f0) -> s := s0; v := v0; pend := p0; log_ok := l0; flush_ok := f0; "OK"
+               | None -> "ERROR no such snapshot")
+          | ["FCALLS"; k] ->
+              (* the calls the pending operation issues when an I/O error is injected into call k *)
+              let (p, _) = prog_of () in
+              "CALLS " ^ String.concat " ; " (List.map (fun c -> "M:" ^ show_call c) (issued p (Some (nat_of_int (int_of_string k))) O !s None))
+          | ["GOF"; k] ->
+              (* run the pending operation with an I/O error injected into call k and go on from there when
+                 every file recovery reads is as before (env=1); otherwise the model stops here (env=0) *)
+              (match !pend, !v with
+               | POp o, Some vv ->
+                   let (p, flag) = prog_of () in
+                   let (st, e) = run_prog p (Some (nat_of_int (int_of_string k))) O !s None in
+                   pend := PNone;
+                   (match e with
+                    | None ->
+                        (* the error was dropped by design: the operation completed *)
+                        s := st; (if flag then set_x (xnext_ok (xs vv) o));
+                        (match !v with
+                         | Some w -> Printf.sprintf "FDONE err=0 env=1 ok=%d seq=%s cur=%s files=%s mem=%s" (if flag then 1 else 0) (dec_of_n w.v_seq) (dec_of_n w.v_cur)
+                                       (String.concat "," (List.map (fun x -> string_of_int (sst_id x)) w.v_files)) (show_entries w.v_mem)
+                         | None -> "FDONE err=0 env=1")
+                    | Some _ ->
+                        let env = same_relb !s st in
+                        s := st;
+                        if env then begin
+                          set_x (xnext_err (xs vv) o);
+                          (match !v with
+                           | Some w -> Printf.sprintf "FDONE err=1 env=1 seq=%s cur=%s files=%s mem=%s" (dec_of_n w.v_seq) (dec_of_n w.v_cur)
+                                         (String.concat "," (List.map (fun x -> string_of_int (sst_id x)) w.v_files)) (show_entries w.v_mem)
+                           | None -> "FDONE err=1 env=1")
+                        end else (v := None; "FDONE err=1 env=0"))
+               | _ -> "ERROR nothing pending")
           | ["LOAD"; k; m] ->
               (* the process dies before call k of the pending operation; the directory is the crash image *)
               let (p, _) = prog_of () in
